@@ -186,6 +186,7 @@ func (s *service) resyncLoop() {
 			spaces = append(spaces, spaceId)
 		}
 		s.localMu.Unlock()
+		verifOrder("pubsub.resync.spaces", spaces)
 		for _, spaceId := range spaces {
 			if err := s.SyncInterest(s.ctx, spaceId); err != nil {
 				log.Debug("resync interest failed", zap.String("spaceId", spaceId), zap.Error(err))
@@ -327,6 +328,7 @@ func (s *service) SyncInterest(ctx context.Context, spaceId string) error {
 		patterns = append(patterns, pattern)
 	}
 	s.localMu.Unlock()
+	verifOrder("pubsub.SyncInterest.patterns", patterns)
 	if len(patterns) == 0 || s.deps.Peers == nil {
 		return nil
 	}
@@ -349,6 +351,7 @@ func (s *service) CloseSpace(spaceId string) {
 	delete(s.localSubs, spaceId)
 	delete(s.localTopic, spaceId)
 	s.localMu.Unlock()
+	verifOrder("pubsub.CloseSpace.patterns", patterns)
 	if len(patterns) > 0 {
 		s.sendInterest(spaceId, patterns, false)
 	}
